@@ -159,6 +159,10 @@ def run(tier):
         s1 = "".join(t + r2.choice(SPACES) for t in toks)
         s2 = "".join(t + r2.choice(SPACES) for t in toks)
         uni.append(([s1], [s2]))
+        # two changed words on either side of a (possibly non-ASCII) blank: one contiguous difference
+        sp = r2.choice(SPACES[:3])
+        a, b = r2.sample(["alpha", "beta", "gamma", "delta", "é1", "zz"], 2), r2.sample(["kappa", "mu", "nu", "xi9"], 2)
+        uni.append((["keep " + a[0] + sp + a[1] + " tail"], ["keep " + b[0] + sp + b[1] + " tail"]))
     plans.append((uni, 60, "w", ("--tabs", "0")))
     plans.append((uni, 0, "w", ()))
     plans.append((uni[:100], 100, "dot", ("--tabs", "0")))
